@@ -132,6 +132,7 @@ func (a *uint8Array) toRaw(v Value) uint64 {
 }
 
 func (a *uint8Array) ptr(idx int) *uint8 {
+	verifAccess(len(*a), idx*1, 1)
 	p := unsafe.SliceData(*a)
 	return (*uint8)(unsafe.Add(unsafe.Pointer(p), idx))
 }
@@ -181,6 +182,7 @@ func (a *uint8ClampedArray) toRaw(v Value) uint64 {
 }
 
 func (a *uint8ClampedArray) ptr(idx int) *uint8 {
+	verifAccess(len(*a), idx*1, 1)
 	p := unsafe.SliceData(*a)
 	return (*uint8)(unsafe.Add(unsafe.Pointer(p), idx))
 }
@@ -226,6 +228,7 @@ func (a *uint8ClampedArray) exportType() reflect.Type {
 }
 
 func (a *int8Array) ptr(idx int) *int8 {
+	verifAccess(len(*a), idx*1, 1)
 	p := unsafe.SliceData(*a)
 	return (*int8)(unsafe.Add(unsafe.Pointer(p), idx))
 }
@@ -281,6 +284,7 @@ func (a *uint16Array) toRaw(v Value) uint64 {
 }
 
 func (a *uint16Array) ptr(idx int) *uint16 {
+	verifAccess(len(*a), idx*2, 2)
 	p := unsafe.SliceData(*a)
 	return (*uint16)(unsafe.Add(unsafe.Pointer(p), idx*2))
 }
@@ -328,6 +332,7 @@ func (a *uint16Array) exportType() reflect.Type {
 }
 
 func (a *int16Array) ptr(idx int) *int16 {
+	verifAccess(len(*a), idx*2, 2)
 	p := unsafe.SliceData(*a)
 	return (*int16)(unsafe.Add(unsafe.Pointer(p), idx*2))
 }
@@ -379,6 +384,7 @@ func (a *int16Array) exportType() reflect.Type {
 }
 
 func (a *uint32Array) ptr(idx int) *uint32 {
+	verifAccess(len(*a), idx*4, 4)
 	p := unsafe.SliceData(*a)
 	return (*uint32)(unsafe.Add(unsafe.Pointer(p), idx*4))
 }
@@ -430,6 +436,7 @@ func (a *uint32Array) exportType() reflect.Type {
 }
 
 func (a *int32Array) ptr(idx int) *int32 {
+	verifAccess(len(*a), idx*4, 4)
 	p := unsafe.SliceData(*a)
 	return (*int32)(unsafe.Add(unsafe.Pointer(p), idx*4))
 }
@@ -481,6 +488,7 @@ func (a *int32Array) exportType() reflect.Type {
 }
 
 func (a *float32Array) ptr(idx int) *float32 {
+	verifAccess(len(*a), idx*4, 4)
 	p := unsafe.SliceData(*a)
 	return (*float32)(unsafe.Add(unsafe.Pointer(p), idx*4))
 }
@@ -547,6 +555,7 @@ func (a *float32Array) exportType() reflect.Type {
 }
 
 func (a *float64Array) ptr(idx int) *float64 {
+	verifAccess(len(*a), idx*8, 8)
 	p := unsafe.SliceData(*a)
 	return (*float64)(unsafe.Add(unsafe.Pointer(p), idx*8))
 }
@@ -603,6 +612,7 @@ func (a *bigInt64Array) toRaw(value Value) uint64 {
 }
 
 func (a *bigInt64Array) ptr(idx int) *int64 {
+	verifAccess(len(*a), idx*8, 8)
 	p := unsafe.SliceData(*a)
 	return (*int64)(unsafe.Add(unsafe.Pointer(p), idx*8))
 }
@@ -667,6 +677,7 @@ func (a *bigUint64Array) toRaw(value Value) uint64 {
 }
 
 func (a *bigUint64Array) ptr(idx int) *uint64 {
+	verifAccess(len(*a), idx*8, 8)
 	p := unsafe.SliceData(*a)
 	return (*uint64)(unsafe.Add(unsafe.Pointer(p), idx*8))
 }
